@@ -534,8 +534,16 @@ func (i *interpreter) cmpCells(a, b []value) (lt, eq *smt.Term) {
 }
 
 func (i *interpreter) boxEq(a, b boxCell) *smt.Term {
-	if a.kind != b.kind || !types.Identical(a.t, b.t) {
+	if a.kind != b.kind || !sameType(a.t, b.t) {
 		return i.m.C.False()
+	}
+	if a.kind == "hash:sha256" {
+		ta, tb := a.v.(tuple), b.v.(tuple)
+		if ta[1].(int) != tb[1].(int) {
+			return i.m.C.False()
+		}
+		_, eq := i.cmpCells(ta[0].([]value), tb[0].([]value))
+		return eq
 	}
 	return i.deepEq(a.v, b.v)
 }
